@@ -443,6 +443,8 @@ class SymInterp(Interp):
             return [x for x in recv if self.call_closure(args[0], [x]) is True]
         if isinstance(recv, list) and m in ("copied", "cloned", "by_ref", "peekable", "rev_iter") and not args:
             return recv
+        if isinstance(recv, list) and m == "step_by" and len(args) == 1 and isinstance(args[0], int) and args[0] > 0:
+            return recv[::args[0]]
         if isinstance(recv, list) and m == "pop" and not args:
             return recv.pop() if recv else None
         if isinstance(recv, list) and m == "extend" and len(args) == 1 and isinstance(args[0], list):
